@@ -7,7 +7,7 @@ prop("C09", pkg="c09",
           "result equals the result of the same call executed alone afterwards; the race detector reports nothing; the process does not die. Non-trivial = a fresh "
           "type whose first use was performed by >= 2 goroutines in the same round; distinct = FNV-64 of the script.",
      quick=dict(shards=5, scale=1, timeout=900),
-     thorough=dict(shards=6, scale=30, timeout=3400),
+     thorough=dict(shards=6, scale=15, timeout=3400),
      builds=[dict(name="race-p16", tags=[], race=True, gomaxprocs=16), dict(name="race-p4", tags=[], race=True, gomaxprocs=4), dict(name="race-p2", tags=[], race=True, gomaxprocs=2)],
      technique="rapid-generated concurrent scripts (stress) with a sequential re-execution oracle, under the Go race detector at several GOMAXPROCS",
      level_text="Exploration of schedules by stress: the harness does not own the scheduler, so each run samples interleavings of concurrent first uses and relies on "
